@@ -59,7 +59,7 @@ def parse_out(line):
 def check(run, replay=None):
     tier, seed = run.tier, run.seed
     rng = random.Random(seed * 7919 + 4)
-    C.standard_coq_phase(run, CID)
+    C.standard_coq_phase(run, CID, gens=("alias",))
     ok, msg = C.ensure_ocaml()
     if not ok:
         run.finding("build:ocaml", "broken-obligation", msg, {})
